@@ -56,6 +56,9 @@ def regen(ctx):
 
 
 def lake_build(ctx, targets):
+    # the compiled driver is rebuilt together with the model so that it never lags behind it
+    if "MhlModel" in targets and "mhldriver" not in targets:
+        targets = list(targets) + ["mhldriver"]
     rc, out = sh(["lake", "build"] + targets, cwd=LEAN, timeout=3000)
     if rc != 0:
         errs = [l for l in out.split("\n") if "error" in l][:8]
